@@ -26,6 +26,8 @@ def install(w):
 
     E = exp.Expression
     H = w.handlers
+    w.duck_class = E
+    w.duck_attrs = {"this", "expression", "expressions", "args", "name", "sql", "find", "find_all", "find_ancestor", "copy", "set", "alias", "db", "catalog", "is_string", "parent", "key", "replace", "transform", "left", "right", "unit", "to", "text", "alias_or_name"}
     w.schemas[E] = ClassSchema(E, fields={"args": DictT(str, None), "parent": Opt(E), "arg_key": Opt(str)}, truthy=None)
 
     # statement-level classes whose `key` is compared with literals or shown in messages
@@ -440,6 +442,10 @@ def install(w):
         fails = ex.fresh("parse_fails", B)
         ex.raise_if(st, fails, sqlglot.errors.ParseError, node)
         text = args[0] if args else None
+        if text is not None and text.ty is str:
+            n_ = ex.gh(st, "$parse_n")
+            st.ghost["$parse_text"] = z3.Store(ex.gh(st, "$parse_text"), n_, V.sval(text.t))
+            st.ghost["$parse_n"] = n_ + 1
         describe = bool(text is not None and text.parts and isinstance(text.parts[0], str) and text.parts[0].upper().startswith("DESCRIBE "))
         obj = ex.new_object(st, exp.Describe if describe else None, exp.Describe if describe else E)
         nid = V.rid(obj.t)
@@ -561,6 +567,33 @@ def install(w):
         # allocated during this call: id at or above the allocation pointer of the pre-state
         pre = ex.spec.old if ex.spec is not None else st
         return Val(mkb(z3.And(V.is_r(args[0].t), V.rid(args[0].t) >= ex.alloc_term(pre))), bool)
+
+    w.ghost_sorts["$parse_n"] = I
+    w.ghost_sorts["$parse_text"] = z3.ArraySort(I, S)
+
+    @sf("parse_count")
+    def _parse_count(ex, st, args):
+        return Val(mki(ex.gh(st, "$parse_n")), int)
+
+    @sf("parse_text")
+    def _parse_text(ex, st, args):
+        return Val(mks(ex.gh(st, "$parse_text")[ex.as_int(st, args[0])]), str)
+
+    @sf("node_expressions")
+    def _node_expressions(ex, st, args):
+        return _expressions(ex, st, Val(args[0].t, E), None)
+
+    @sf("mutation_kind_ok")
+    def _mutation_kind_ok(ex, st, args):
+        """the statement text generated for WHEN clause `w` (index j) is of the clause's kind and selects merge_op = j"""
+        from pyvc.spec import eval_nested
+
+        return eval_nested(
+            ex, st,
+            "((('DELETE FROM ' in text) if (isinstance(arg(w, 'then'), exp.Var) and isinstance(arg(arg(w, 'then'), 'this'), str) and upper(arg(arg(w, 'then'), 'this')) == 'DELETE') else ('UPDATE ' in text)) "
+            "if arg(w, 'matched') else ('INSERT INTO ' in text)) and (('merge_op = ' + str(j)) in text)",
+            {"w": args[0], "text": args[1], "j": args[2], "exp": w.const(exp)},
+        )
 
     @sf("find_ident_dfs")
     def _find_ident_dfs(ex, st, args):
